@@ -185,6 +185,14 @@ theorem findFirst_is_the_specification_up_to_ties (s : Spec.State) (σ : KVS) (h
           compareDocuments a b q.sort = 0) :=
   findFirst_class_any_plan likeFn fnFam s σ hw hr q coll hl hdomain hsd hnn
 
+/-- (translated, regenerated from the source on every run) **`Query.Skip` and `Query.Limit` (through `Query.copy`) as the
+    current source writes them** are the model's builders: a negative skip is ignored, the limit is stored as given, the
+    other fields are carried over - for every query and every integer. -/
+theorem source_window_builders_are_the_models (g : Gen.GQuery) (n : Int) :
+    Translated.toQ (Gen.Query_Skip g n) = (Translated.toQ g).skipB n ∧
+    Translated.toQ (Gen.Query_Limit g n) = (Translated.toQ g).limitB n :=
+  ⟨Translated.querySkip_eq g n, Translated.queryLimit_eq g n⟩
+
 /-- (translated, regenerated from the source on every run) **`skipLimitNode.Callback` as the current source writes it**
     is the model's `emit`: skip while `skipped < skip`, hand on while the limit is negative or `consumed < limit`, stop
     otherwise - for every state of the counters and every skip / limit. -/
@@ -203,7 +211,7 @@ end CV.Props.C08
 namespace CV.Props.C08
 
 /-- (facts, regenerated from the source on every run) **The source text the model transcribes is the text of the
-    current source**: the bodies (comments and layout removed) of the 20 functions the model behind C08 was written from and
+    current source**: the bodies (comments and layout removed) of the 18 functions the model behind C08 was written from and
     validated against.  Any edit of one of them breaks this theorem at build time; the check then searches with the
     property's own oracles for a failing input, and reports `no-failing-input-found` if it finds none: the model then
     has to be re-validated against the new text (and this block regenerated). -/
@@ -224,8 +232,6 @@ theorem source_decision_logic : CV.Facts.logicC08 = [
   "query.Query.Criteria: { return q.criteria }", 
   "query.Query.GetLimit: { return q.limit }", 
   "query.Query.GetSkip: { return q.skip }", 
-  "query.Query.Limit: { newQuery := q.copy() newQuery.limit = n return newQuery }", 
-  "query.Query.Skip: { if n >= 0 { newQuery := q.copy() newQuery.skip = n return newQuery } return q }", 
   "query.Query.Sort: { if len(opts) == 0 { opts = []SortOption{{Field: d.ObjectIdField, Direction: 1}} } else { opts = normalizeSortOptions(opts) } newQuery := q.copy() newQuery.sortOpts = opts return newQuery }", 
   "query.Query.SortOptions: { return q.sortOpts }"] := by rfl
 
